@@ -202,7 +202,7 @@ def run(ctx: Ctx):
             except _NEs:
                 tab = "?"
             shifts[tag] = tab
-    col.floor("shift_definitions", len(shifts), 3)
+    col.floor("shift_definitions", len(shifts), 2)
     col.ob("G12", "S3", f"{rel}::layout::shift-definitions-agree",
            len(set(shifts.values())) == 1 and set(shifts.values()) == {(1, 1, 0, 0, 0, 1, 1)},
            f"the sos shift for sos in (-2, -1, 0, 2, 4, 5, 7) with a vocabulary of 5 is {shifts}; expected 0 exactly for 0 <= sos < V", rel, kern.line, sample={k: str(v) for k, v in shifts.items()})
@@ -213,6 +213,26 @@ def run(ctx: Ctx):
             if isinstance(n, ast.Assign) and "self.vocab_size" in u(n.value) and isinstance(n.value, ast.BinOp) \
                     and u(n.value).endswith("+ 1"):
                 cand = n.value
+        if cand is None and tag == "load_state_dict":
+            # (the constant itself may have no name: what matters is where the walk over the levels STARTS - at the dummy node that
+            #  follows the V + shift unigram nodes, i.e. at U - 1 = V + shift)
+            from sa.inline import Inliner as _InlU
+            rdl, start = ReachingDefs(f.node), None
+            inl_u = _InlU(f.node, rdl)
+            for w_ in own_nodes(f.node):
+                if isinstance(w_, ast.While):
+                    for x_ in ast.walk(w_):
+                        if isinstance(x_, ast.Subscript) and isinstance(x_.slice, ast.Name) and isinstance(x_.ctx, ast.Load) and "offsets" in u(x_.value):
+                            ds_ = [d_ for d_ in rdl.defs_of(x_.slice) if d_.line < w_.lineno and d_.value is not None]
+                            if len(ds_) == 1:
+                                start = inl_u.expand(ds_[0].value)
+            if start is None:
+                raise AnalysisError(f"C06: neither the unigram count U nor the start of the level walk was found in {tag}")
+            nz = Normalizer(rename=_ren)
+            s_ = _ren(pstr(nz.poly(start))).replace("0 if 0 <= sos < V else 1", "shift")
+            col.ob("G12", "S3", f"{W(tag)}::U=V+shift+1", sorted(s_.split(" + ")) == ["V", "shift"],
+                   f"{tag} starts its walk over the levels at {s_}; the dummy node that closes the unigram level sits at U - 1 = V + shift", rel, f.line, sample=s_)
+            continue
         if cand is None:
             raise AnalysisError(f"C06: the unigram count U (vocab_size + shift + 1) was not found in {tag}")
         nz = Normalizer(rename=_ren)
@@ -443,7 +463,8 @@ def run(ctx: Ctx):
            "would be different code", rel, full.line, sample=u(rets[0].value) if rets else None)
 
     # ---- S5' the chunked windows: element (i, r, b) of the strided view is hist[t + r - Nm1 + i, b] -------------------
-    _strided_windows(ctx, rel)
+    if not _chunked_windows_table(ctx, rel):
+        _strided_windows(ctx, rel)
     _sos_renamed_in_every_order(ctx, rel)
     _history_window_table(ctx, rel)
     _arpa_table(ctx)
@@ -688,6 +709,83 @@ def _arpa_table(ctx: Ctx):
            (f"with to_base_e={bad[0]}{' and a token map' if bad[1] else ''} the reader returns {str(bad[2])[:300]}; the file lists {str(bad[3])[:300]} "
             f"({'each number times ln 10' if bad[0] else 'base 10, as listed'}; implicit back-off weights are 0, the highest order has none)") if bad else "",
            rel, f.lineno, sample=dict(rows=n))
+
+
+def _chunked_windows_table(ctx: Ctx, rel: str) -> bool:
+    """S5 by value: `calc_full_log_probs_chunked` is interpreted (sa/interp.py + sa/teval.py; the model's one-step scorer is a leaf that
+    records the history window and index it is handed) for orders N = 1..4, histories of T = 0, 1, 3, 5 steps x 1 or 2 sequences with
+    distinct tokens - contiguous and as a transposed view of a (B, T) tensor - and chunk sizes 1, 2, 3, 100. The calls must be: index
+    i with the first i steps for i < min(T, N - 1); then, chunk after chunk (at most chunk_size time steps each), windows whose columns,
+    concatenated, are for t = min(T, N - 1) .. T and every sequence b the N - 1 tokens hist[t - (N - 1) .. t - 1, b], all at index
+    min(T, N - 1); the result has T + 1 rows. A strided view is evaluated against the receiver's STORAGE, so a view taken of a
+    non-contiguous history shows up as wrong windows. False when outside the interpreted fragment."""
+    import numpy as np
+    from sa.interp import Interp
+    from sa.inteval import NotEvaluable
+    from sa.teval import frac_array
+    col, pkg = ctx.col, ctx.pkg
+    f = pkg.func(f"{MOD}::{CLS}.calc_full_log_probs_chunked")
+    where = f"{rel}::{CLS}.calc_full_log_probs_chunked"
+    names = [p_.name for p_ in f.params[1:]]
+    V = 3
+    bad, rows = None, 0
+    try:
+        for N in (1, 2, 3, 4):
+            for T in (0, 1, 3, 5):
+                for B in (1, 2):
+                    hist = np.array([[10 * t_ + b_ + 1 for b_ in range(B)] for t_ in range(T)]).reshape(T, B)
+                    for layout in ("contiguous", "a transposed view"):
+                        if layout != "contiguous" and (T < 2 or B < 2):
+                            continue
+                        for chunk in (1, 2, 3, 100):
+                            calls = []
+                            holder = {}
+
+                            def leaf(x, env):
+                                if isinstance(x, ast.Call) and call_name(x) == "self.calc_idx_log_probs" and len(x.args) == 3:
+                                    it_ = holder["it"]
+                                    h_, idx_ = it_.eval(x.args[0], env), it_.eval(x.args[2], env)
+                                    h_ = np.asarray(h_, dtype=object)
+                                    calls.append((h_, idx_))
+                                    cols = h_.shape[1] if h_.ndim == 2 else B
+                                    return (frac_array(np.zeros((cols, V), dtype=int).tolist()) if cols else np.empty((0, V), dtype=object), "<state>")
+                                return None
+                            it = Interp(leaf=leaf, tensors=True)
+                            holder["it"] = it
+                            h_in = frac_array(hist.tolist()) if T else np.empty((0, B), dtype=object)
+                            if layout != "contiguous":
+                                h_in = frac_array(hist.T.tolist()).T
+                            env = dict(zip(names, (h_in, "<state>", chunk)))
+                            env.update({"self.max_ngram": N, "self.vocab_size": V})
+                            kind, got = it.run(f.node, env)
+                            rows += 1
+                            Nm1 = min(T, N - 1)
+                            problem = None
+                            if kind != "return" or not hasattr(got, "shape") or tuple(got.shape) != (T + 1, B, V):
+                                problem = f"returns {kind} {getattr(got, 'shape', got)}; expected a tensor of shape {(T + 1, B, V)}"
+                            else:
+                                head, tail = calls[:Nm1], calls[Nm1:]
+                                for i_, (h_, idx_) in enumerate(head):
+                                    if int(np.asarray(idx_).reshape(-1)[0]) != i_ or h_.shape[0] != i_ or [[int(v_) for v_ in r_] for r_ in h_.tolist()] != hist[:i_].tolist():
+                                        problem = problem or f"call {i_} scores index {idx_} on a history of {h_.shape[0]} steps; expected index {i_} on the first {i_} steps"
+                                want = np.array([[hist[Nm1 + r_ - Nm1 + i_, b_] for r_ in range(T + 1 - Nm1) for b_ in range(B)] for i_ in range(Nm1)]).reshape(Nm1, (T + 1 - Nm1) * B)
+                                if N == 1:
+                                    pass  # (no history is read by a unigram model: whatever window it is handed has no rows)
+                                if any(h_.ndim != 2 or h_.shape[0] != Nm1 or h_.shape[1] > chunk * B or int(np.asarray(idx_).reshape(-1)[0]) != Nm1 for h_, idx_ in tail):
+                                    problem = problem or f"the chunk calls use windows of shapes {[tuple(h_.shape) for h_, _ in tail]} at indices {[str(i_) for _, i_ in tail]}; expected {Nm1} rows, at most {chunk * B} columns, index {Nm1}"
+                                elif tail or want.size:
+                                    gotw = np.concatenate([h_ for h_, _ in tail], 1) if tail else np.empty((Nm1, 0), dtype=object)
+                                    if gotw.shape != want.shape or [[int(v_) for v_ in r_] for r_ in gotw.tolist()] != want.tolist():
+                                        problem = problem or f"the windows of the chunks, side by side, are {[[int(v_) for v_ in r_] for r_ in gotw.tolist()]}; the contexts of times {Nm1}..{T} are {want.tolist()}"
+                            if problem and bad is None:
+                                bad = (N, T, B, layout, chunk, problem)
+    except NotEvaluable:
+        return False
+    col.floor("chunked_window_rows", rows, 60)
+    col.ob("G12", "S5", f"{where}::chunk-windows-table", bad is None,
+           (f"order {bad[0]}, a history of {bad[1]} steps x {bad[2]} sequence(s) ({bad[3]}), chunk_size={bad[4]}: {bad[5]}") if bad else "", rel, f.line,
+           sample=dict(rows=rows))
+    return True
 
 
 def _strided_windows(ctx: Ctx, rel: str):
@@ -1037,9 +1135,9 @@ def _mutants():
         M("unigram-returns-table-view", "_lm.py", "return last_logps.expand(B, V).clone()", "return last_logps.expand(B, V)", "result-is-not-a-view-of-a-table"),
         M("arpa-unsigned-exponent-only", "_parsing.py", "ngram_entry_pattern = re.compile('^([-+]?(?:(?:\\\\d+\\\\.?\\\\d*|\\\\.\\\\d+)(?:[Ee][-+]?\\\\d+)?|inf))\\\\s+(.*)$')", "ngram_entry_pattern = re.compile('^(-?\\\\d+(?:\\\\.\\\\d+)?(?:[Ee]-?\\\\d+)?)\\\\s+(.*)$')", "both-numeric-columns-use-one-grammar"),
         M("offset-width-one-short", "_lm.py", "max_potential_offset = max((len(prob_dicts[n]) + len(prob_dicts[n - 1]) for n in range(1, N)))", "max_potential_offset = max((len(prob_dicts[n]) + len(prob_dicts[n - 1]) - 1 for n in range(1, N)))", "offset-width-covers-the-dummy-hop"),
-        M("window-stride-one-row-short", "_lm.py", "hist.as_strided((Nm1, T_rest * B), (B, 1), hist.storage_offset() + B * (t - Nm1))", "hist.as_strided((Nm1, T_rest * B), (B, 1), hist.storage_offset() + B * (t - Nm1 + 1))", "strided-window-element"),
-        M("window-strides-swapped", "_lm.py", "hist.as_strided((Nm1, T_rest * B), (B, 1), hist.storage_offset() + B * (t - Nm1))", "hist.as_strided((Nm1, T_rest * B), (1, B), hist.storage_offset() + B * (t - Nm1))", "strided-window-element"),
-        M("last-chunk-overruns", "_lm.py", "T_rest = min(chunk_size, T + 1 - t)", "T_rest = chunk_size", "strided-window-columns"),
+        M("window-stride-one-row-short", "_lm.py", "hist.as_strided((Nm1, T_rest * B), (B, 1), hist.storage_offset() + B * (t - Nm1))", "hist.as_strided((Nm1, T_rest * B), (B, 1), hist.storage_offset() + B * (t - Nm1 + 1))", "chunk-windows-table"),
+        M("window-strides-swapped", "_lm.py", "hist.as_strided((Nm1, T_rest * B), (B, 1), hist.storage_offset() + B * (t - Nm1))", "hist.as_strided((Nm1, T_rest * B), (1, B), hist.storage_offset() + B * (t - Nm1))", "chunk-windows-table"),
+        M("last-chunk-overruns", "_lm.py", "T_rest = min(chunk_size, T + 1 - t)", "T_rest = chunk_size", "chunk-windows-table"),
         M("strided-view-absolute-offset", "_lm.py", "hist.storage_offset() + B * (t - Nm1)", "B * (t - Nm1)", "strided-view-offset-relative-to-receiver"),
         M("drop-int-widening", L, "parent = int(parents[prefix]) + last_start", "parent = parents[prefix] + last_start",
           "unsigned-scalar-decremented"),
